@@ -1,4 +1,4 @@
-(* Correspondence checker for C06: one case = one websocket admitted (or refused) on the real relay
+(* Correspondence checker for C06: one case = one websocket accepted (or refused) on the real relay
    at a known instant, with what the harness then saw.  The admission instant is only known as a
    bracket [t_lo, t_hi] (before the dial / when the first relayed byte proved membership); a case
    whose bracket straddles a second boundary is ambiguous and passes (the harness counts and
